@@ -14,7 +14,7 @@
 (* Verdict clauses (property level) and diagnostic clauses (prefix "d:")    *)
 (* are separated by name; the harness maps them to VIOLATION / SPEC-DRIFT.  *)
 (***************************************************************************)
-EXTENDS STMesh, Json, IOUtils
+EXTENDS STMesh, Marking, Json, IOUtils
 
 Trace == JsonDeserialize(IOEnv.TRACE_FILE)
 
@@ -58,6 +58,21 @@ BookClauses(ev) ==
   IF "book" \notin DOMAIN ev THEN {}
   ELSE {c \in DOMAIN ev.book : ev.book[c] = FALSE}
 
+\* C06 marking clause.  ev.etai: integer indicators in the order of the pre-state's leaves
+\* (isotropic: one per leaf; anisotropic: <<time, space>> per leaf); ev.th2 = <<num, den>>.
+IdxOf(M) == {k \in 1..Len(order) : order[k] \in M}
+MarkClauses(ev, Mt, Ms) ==
+  IF "etai" \notin DOMAIN ev \/ ~ev.judge_marking THEN {}
+  ELSE LET N == Len(order) IN
+       IF Len(ev.etai) # N THEN {"d:indicator-length"}
+       ELSE IF ev.kind = "dorfler_iso"
+       THEN LET v == [k \in 1..N |-> ev.etai[k]] IN
+            (IF Mt = Ms THEN {} ELSE {"marked-directions"})
+            \cup (IF AcceptMarked(v, IdxOf(Mt), ev.th2[1], ev.th2[2]) THEN {} ELSE {"marking"})
+       ELSE LET v == [k \in 1..(2 * N) |-> IF k <= N THEN ev.etai[k][1] ELSE ev.etai[k - N][2]]
+                M == IdxOf(Mt) \cup {N + k : k \in IdxOf(Ms)} IN
+            (IF AcceptMarked(v, M, ev.th2[1], ev.th2[2]) THEN {} ELSE {"marking"})
+
 \* what the operation had to produce
 OpClauses(ev, S, post) ==
   LET S2 == Rng(post) IN
@@ -80,6 +95,7 @@ OpClauses(ev, S, post) ==
     [] ev.k = "dorfler" ->    \* marked sets observed; result must be the declarative double closure
          LET Mt == {ToLeaf(a) : a \in Rng(ev.mt)}  Ms == {ToLeaf(a) : a \in Rng(ev.ms)} IN
          (IF Mt \subseteq S /\ Ms \subseteq S THEN {} ELSE {"d:marked-non-leaf"})
+         \cup MarkClauses(ev, Mt, Ms)
          \cup (IF S2 = DorflerDecl(S, Mt, Ms) THEN {} ELSE {"dorfler-closure"})
     [] ev.k = "grade" ->
          (IF \A e \in S2 : GradeOK(e, ev) THEN {} ELSE {"grade-window"})
